@@ -243,8 +243,8 @@ def _extract(tree: ast.Module) -> dict:
     base = ed[0].func.value
     if not (isinstance(base, ast.Name) and base.id == ds_name):
         fail(ed[0], "expand_dims must be applied to the dataset the variables were stored in")
-    if not (isinstance(ac[0].func.value, ast.Call) and ac[0].func.value is ed[0]):
-        # accept dataset.expand_dims(..).assign_coords(..) only
+    if _resolve(ac[0].func.value, env) is not ed[0]:
+        # dataset.expand_dims(..).assign_coords(..), possibly with the expanded dataset as a named intermediate result
         fail(ac[0], "expected `dataset.expand_dims(dim=...).assign_coords(...)`")
     rets = [n for n in ast.walk(fn) if isinstance(n, ast.Return)]
     if len(rets) != 1 or not _is_call(rets[0].value, "xr.DataTree") or len(rets[0].value.args) != 1:
